@@ -40,15 +40,18 @@ impl FunRef {
 impl Vm {
   #[verifier::external_body]
   pub fn call_method(&mut self, method: MethodRef, arg_count: u8) -> (r: ExecutionSignal)
-    ensures final(self).call_log@ == old(self).call_log@.push(Dispatched::Method(method, arg_count)), final(self).fiber.frames == old(self).fiber.frames, final(self).raised == old(self).raised
+    ensures final(self).call_log@ == old(self).call_log@.push(Dispatched::Method(method, arg_count)), final(self).fiber.frames == old(self).fiber.frames, final(self).raised == old(self).raised,
+            r == ExecutionSignal::Ok || r == ExecutionSignal::OkReturn || r == ExecutionSignal::RuntimeError || r == ExecutionSignal::Exit
   { ExecutionSignal::Ok }
   #[verifier::external_body]
   pub fn call_native(&mut self, native: NativeRef, arg_count: u8) -> (r: ExecutionSignal)
-    ensures final(self).call_log@ == old(self).call_log@.push(Dispatched::Native(native, arg_count)), final(self).fiber.frames == old(self).fiber.frames, final(self).raised == old(self).raised
+    ensures final(self).call_log@ == old(self).call_log@.push(Dispatched::Native(native, arg_count)), final(self).fiber.frames == old(self).fiber.frames, final(self).raised == old(self).raised,
+            r == ExecutionSignal::Ok || r == ExecutionSignal::OkReturn || r == ExecutionSignal::RuntimeError || r == ExecutionSignal::Exit
   { ExecutionSignal::Ok }
   #[verifier::external_body]
   pub fn call_class(&mut self, class: ClassRef, arg_count: u8) -> (r: ExecutionSignal)
-    ensures final(self).call_log@ == old(self).call_log@.push(Dispatched::Class(class, arg_count)), final(self).fiber.frames == old(self).fiber.frames, final(self).raised == old(self).raised
+    ensures final(self).call_log@ == old(self).call_log@.push(Dispatched::Class(class, arg_count)), final(self).fiber.frames == old(self).fiber.frames, final(self).raised == old(self).raised,
+            r == ExecutionSignal::Ok || r == ExecutionSignal::OkReturn || r == ExecutionSignal::RuntimeError || r == ExecutionSignal::Exit
   { ExecutionSignal::Ok }
 
   /// real: store ip, Fiber::push_frame (reserves the stack, raw pointers), load ip, current_fun = closure
